@@ -50,6 +50,13 @@ def gen_inputs(rng, styled_p=0.5, out_p=0.0, max_models=2):
 
 
 def gen_job(rng, fw=None, layout=None):
+    job = _gen_job(rng, fw, layout)
+    if rng.random() < 0.25:
+        job["renderFirst"] = "nested" if job["layout"] == "flat" else "flat"
+    return job
+
+
+def _gen_job(rng, fw=None, layout=None):
     return {"fw": fw or rng.choice(FRAMEWORKS), "layout": layout or rng.choice(["flat", "nested"]),
             "maxLit": rng.choice([10, 10, 0, 2, 16]), "postInit": rng.random() < .4,
             "convertUnicode": rng.random() < .7, "meta": rng.random() < .5, "preamble": rng.choice([None, None, "# x"]), "omitDefaults": rng.random() < .35}
